@@ -130,13 +130,16 @@ def gen_scenario(rng):
     """one query after the host's own announcements were last seen `age` ms ago"""
     qkind = rng.choice(['ptr', 'srv', 'txt', 'a', 'ptr+srv'])
     qu = rng.random() < 0.6
-    mixed = qkind == 'ptr+srv' and rng.random() < 0.5      # first question QM, second QU
+    mixed = rng.choice(['qm-qu', 'qu-qm']) if qkind == 'ptr+srv' and rng.random() < 0.6 else None   # one QM and one QU question, either order
     port = rng.choice([5353, 5353, 5354, 40000])
     probe = rng.random() < 0.3
     # records were multicast (and looped back) at announcement time; query arrives `age` later:
     # around 1 s, around one quarter of the host TTL (120 s -> 30 s) and of the other TTL (4500 s -> 1125 s)
     age = rng.choice([300, 999, 1000, 1001, 5000, 29999, 30000, 30001, 60000, 1124999, 1125000, 1125001, 2000000])
-    return dict(qkind=qkind, qu=qu, mixed=mixed, port=port, probe=probe, age=age, ident=rng.choice([0, 7, 65535]), two_sockets=rng.random() < 0.3)
+    # the same datagram once more, inside the listener's one-second duplicate window (a query with a QU question is exempt from it)
+    repeat = rng.choice([None, None, 10, 500, 999])
+    return dict(qkind=qkind, qu=qu, mixed=mixed, port=port, probe=probe, age=age, ident=rng.choice([0, 7, 65535]), two_sockets=rng.random() < 0.3,
+                repeat=repeat)
 
 
 def run_scenario(sc):
@@ -158,7 +161,7 @@ def run_scenario(sc):
             auth = [rec('KPointer', T, 12, 1, alias='other.' + T, ttl=4500)] if sc['probe'] else []
             flags = [sc['qu']] * len(names)
             if sc.get('mixed'):
-                flags = [False, True]
+                flags = [True, False] if sc['mixed'] == 'qu-qm' else [False, True]
             data = q_bytes([(n, t, f) for (n, t), f in zip(names, flags)], ident=sc['ident'], auth=auth)
             out['t'] = sim.now
             out['query'] = data
@@ -170,6 +173,9 @@ def run_scenario(sc):
             out['seen'] = seen
             sim.randoms['mcast_delay'] = [57]
             sim.net.inject(a, data, ('10.0.0.7', sc['port']), sock=0)
+            if sc.get('repeat'):
+                await sim.sleep(sc['repeat'])
+                sim.net.inject(a, data, ('10.0.0.7', sc['port']), sock=0)
             await sim.sleep(3000)
             out['sends'] = [(ms - out['t'], dest, data, idx) for ms, h, dest, data, idx in sim.net.log[base:]]
             out['last_announce_age'] = out['t'] - last_announce
@@ -221,10 +227,18 @@ def oracle_scenario(sc, out):
                 return "legacy unicast reply carries a cache-flush bit"
     qu_of = {t: sc['qu'] for t in want}
     if sc.get('mixed'):
-        qu_of = {12: False, 33: True}
+        qu_of = {12: True, 33: False} if sc['mixed'] == 'qu-qm' else {12: False, 33: True}
+    # a repeated query that contains a QU question is not a duplicate to the listener: its QU questions are answered again, and by then the
+    # record has been seen on the wire, so by unicast
+    if sc.get('repeat') and not legacy and not sc['probe']:
+        for t in want:
+            if qu_of[t] and not any(u[0] >= sc['repeat'] and any(r.type == t for r in u[3][:u[2].num_answers]) for u in uc):
+                return (f"the query (QU question for type {t}) arrived again after {sc['repeat']} ms and got no unicast reply: a datagram with a QU "
+                        f"question was treated as a duplicate")
     for t in want:
         recent = is_recent(t)
-        in_uc = any(r.type == t for u in uc for r in u[3][:u[2].num_answers])
+        # unicast replies are immediate: those of the first copy leave at +0 (a repeated copy, if any, is judged separately above)
+        in_uc = any(r.type == t for u in uc if u[0] == 0 or not sc.get('repeat') for r in u[3][:u[2].num_answers])
         mc_now = any(dt == 0 and any(r.type == t for r in recs[:m.num_answers]) for dt, m, recs in mc)
         mc_any = any(any(r.type == t for r in recs) for dt, m, recs in mc)
         mc_ans = any(any(r.type == t for r in recs[:m.num_answers]) for dt, m, recs in mc)   # as an answer, not as an additional
